@@ -156,7 +156,16 @@ func checkStateGraph(x *Ctx, role, name string) {
 	quietStart := time.Duration(-1)
 	tcloseAt := time.Duration(-1)
 	var seq []int
+	closedTask := ""
+	closedDuringRx, rxOpen := false, false
+	rxOpenSeq, closedRxSeq := 0, 0
 	for i, e := range evs {
+		if e.Kind == "rx" {
+			rxOpen, rxOpenSeq = true, e.Seq
+		}
+		if e.Kind == "rx-ret" {
+			rxOpen = false
+		}
 		if e.Kind == "quiet-start" {
 			quietStart = e.T
 		}
@@ -176,7 +185,15 @@ func checkStateGraph(x *Ctx, role, name string) {
 				return
 			}
 			if terminalSeq != 0 && !isTerminalState(st) {
-				x.Violate("progress-after-terminal", fmt.Sprintf("%d>%d", terminalState, st), fmt.Sprintf("state %d reported after terminal state %d (sequence %v)", st, terminalState, seq))
+				discr := fmt.Sprintf("after-state-%d", terminalState)
+				if terminalState == -1 {
+					discr = "after-closed"
+					// the close was requested by another goroutine while this handler invocation was in flight
+					if closedTask != e.Task && closedDuringRx && rxOpenSeq == closedRxSeq {
+						discr = "closed-by-other-goroutine-during-handler"
+					}
+				}
+				x.Violate("progress-after-terminal", discr, fmt.Sprintf("state %d reported after terminal outcome %d (-1 = close reported); sequence %v", st, terminalState, seq))
 				return
 			}
 			if ph := phaseOf(st); ph >= 0 {
@@ -198,6 +215,9 @@ func checkStateGraph(x *Ctx, role, name string) {
 		case "closed":
 			if terminalSeq == 0 {
 				terminalSeq, terminalAt, terminalState = e.Seq, e.T, -1
+				closedTask = e.Task
+				closedDuringRx = rxOpen
+				closedRxSeq = rxOpenSeq
 			}
 		case "tclose":
 			if tcloseAt < 0 {
